@@ -9,6 +9,7 @@ CONSTANTS
   MinMemMerge = 2
   KeepN = 1
   TruncateOnPersist = TRUE
+  WaitForSwap = TRUE
   MaxInv = 0
   MaxCrash = 0
   MaxMerges = 0
